@@ -38,7 +38,7 @@ struct Family {
   std::string name;
   bool unordered_entries = false;      // layout stores a hash table whose order is unspecified: re-serialization compared via obs only
   bool rebuild_changes_bytes = false;
-  size_t alloc_cap = (size_t)1 << 30;  // C11: a single allocation request above this counts as unbounded (1 GiB for images of at most 4 KiB)
+  size_t alloc_cap = (size_t)1 << 30;  // C11: a single allocation request above this is refused by the harness allocator; it counts as unbounded unless it is <= alloc_legal_max
   size_t alloc_legal_max = 0;          // requests up to this size are within the format's own documented limits: refusing them (std::bad_alloc) is a rejection, not a finding
   size_t preamble_bytes = 8;           // bytes subject to corruption in C11 (at least 8, at most 40)
   std::function<void(bool quick, const StateCb&)> states;
